@@ -31,7 +31,7 @@ def ctor_defaults(ctx):
                           finding_id=core.match_finding("C03", n, "ctor_defaults"))
 
 
-MODES = ["f64", "u8", "f64+i8", "i32", "nc", "i16"]
+MODES = ["f64", "u8", "f64+i8", "i32", "nc", "i16", "rg"]
 
 
 def squeeze(v):
